@@ -366,3 +366,82 @@ Example C01_notation_nonvacuous :
      | _, _ => False
      end.
 Proof. vm_compute. repeat split; reflexivity. Qed.
+
+(* ======================================================================== *)
+(* DOCUMENT ORDER, EACH ONCE (proofs: Proofs/EvalOrder.v; vocabulary:
+   Spec/SpecC01Order.v, Spec/SpecC02.v).
+
+   [res_locn x]        the location of a result, read off its ancestry (C02:
+                       C02_reported_path_is_built_partial - that location holds the
+                       result's node);
+   [loc_before d a b]  where the ways from the root to a and to b part, a takes the
+                       earlier child (position among the pairs / elements / members of
+                       the parent): a comes before b in the document and neither lies
+                       above the other.  It is strict and asymmetric
+                       (C01_loc_before_strict), so results that are pairwise
+                       loc_before - each before every later one - are in document
+                       order, every node is named once, none together with a descendant.
+
+   Sub-fragment: the C01 fragment with `**` only as the LAST segment
+   ([trav_only_last]); a `**` followed by another segment gathers a node twice or
+   against document order (C01_results_doc_ordered_refuted).  The other guards are
+   those of the location theorem of C02: [c02_doc_ok] (keys pairwise unequal: every
+   loaded document), [c02_path_plain] (no [&anchor] segment, no index counted from
+   the end, integer-looking keys spelled like str(int)), slices last. *)
+From YP Require Import SpecC02 SpecC01Order EvalLocAll EvalOrder.
+
+Theorem C01_results_doc_ordered_partial :
+  forall lit re_search nstr vstr kw_handler creator d segs,
+    c02_doc_ok d = true ->
+    c01_frag (PPath segs) = true -> slices_last segs = true -> c02_path_plain segs = true ->
+    trav_only_last segs = true ->
+    ForallOrdPairs (fun x y => loc_before d (res_locn x) (res_locn y) = true)
+                   (fst (get_required lit re_search nstr vstr kw_handler creator (PPath segs) d)).
+Proof. exact required_ordered. Qed.
+Print Assumptions C01_results_doc_ordered_partial.
+
+Theorem C01_loc_before_strict :
+  forall (d : node) (a b s : loc),
+    loc_before d a (a ++ s)%list = false /\ loc_before d (a ++ s)%list a = false
+    /\ (loc_before d a b = true -> loc_before d b a = false).
+Proof. intros d a b s. split; [apply before_not_below | split; [apply before_not_above | apply before_asym]]. Qed.
+Print Assumptions C01_loc_before_strict.
+
+Fixpoint all_before (d : node) (ls : list loc) : bool :=
+  match ls with
+  | [] => true
+  | a :: r => forallb (loc_before d a) r && all_before d r
+  end.
+Definition ord_check (text : string) (d : node) : option (bool * list N * bool) :=
+  match prepare 20 text with
+  | Ok (PPath segs) =>
+      let g := get_required lit2 re2 nstr2 vstr2 kw2 cr2 (PPath segs) d in
+      Some (c02_doc_ok d && c01_frag (PPath segs) && slices_last segs && c02_path_plain segs && trav_only_last segs,
+            map node_oid (nodes_of (fst g)), all_before d (map res_locn (fst g)))
+  | _ => None
+  end.
+
+(* non-vacuity on doc_nv = {x: [{a: 1, b: [1, 2, 3]}, {a: 2, b: [4, 5, 6]}], s: !!set {a, b}}: pass-through,
+   wildcards, `**` last (the scalar 1 is ONE object at two places: two locations), searches, a set *)
+Example C01_doc_ordered_nonvacuous :
+  ord_check "x.b.*" doc_nv = Some (true, [5; 8; 9; 12; 13; 14]%N, true)
+  /\ ord_check "x.*.*" doc_nv = Some (true, [5; 7; 8; 11]%N, true)
+  /\ ord_check "**" doc_nv = Some (true, [5; 5; 8; 9; 8; 12; 13; 14; 17; 18]%N, true)
+  /\ ord_check "x[a!=9].b[0]" doc_nv = Some (true, [5; 12]%N, true)
+  /\ ord_check "s.*" doc_nv = Some (true, [17; 18]%N, true)
+  /\ ord_check "x.*[.=1].b.*" doc_nv = Some (true, [], true).
+Proof. vm_compute. repeat split. Qed.
+
+(* `**` followed by another segment is outside: {a: aa}, **[.^a] gathers aa twice (one location twice);
+   {a: b, b: zz}, **[.=b] gathers the value under b before the value under a *)
+Definition doc_dup2 : node := NMap (inf2 0) [ (leaf2 1 (PStr "a"), leaf2 2 (PStr "aa")) ].
+Definition doc_rev2 : node := NMap (inf2 0) [ (leaf2 1 (PStr "a"), leaf2 2 (PStr "b")); (leaf2 2 (PStr "b"), leaf2 3 (PStr "zz")) ].
+Theorem C01_results_doc_ordered_refuted :
+  ord_check "**[.^a]" doc_dup2 = Some (false, [2; 2]%N, false)
+  /\ ord_check "**[.=b]" doc_rev2 = Some (false, [3; 2]%N, false)
+  /\ match prepare 20 "**[.^a]" with
+     | Ok (PPath segs) => c02_doc_ok doc_dup2 && c01_frag (PPath segs) && slices_last segs && c02_path_plain segs = true
+                          /\ trav_only_last segs = false
+     | _ => False
+     end.
+Proof. vm_compute. repeat split. Qed.
